@@ -13,7 +13,8 @@ CTXSIZED = ['Bytes(this._params.n)', 'Array(this._params.n, Byte)', 'Padded(this
             'Switch(this._params.n, {2: Int16ub, 3: Bytes(3)}, default=Byte)', 'Bytes(this._.n)', 'FixedSized(this._params.n, GreedyBytes)']
 PREFIXED = ['Prefixed(Byte, GreedyBytes)', 'PascalString(Byte, "utf8")', 'PrefixedArray(Byte, Int16ub)', 'Prefixed(VarInt, GreedyBytes)',
             'Prefixed(Int16ub, GreedyBytes, includelength=True)', 'Prefixed(Byte, Struct("a"/Byte, "r"/GreedyBytes))',
-            'PrefixedArray(VarInt, Byte)', 'Prefixed(Int16ul, GreedyRange(Int16ub))']
+            'PrefixedArray(VarInt, Byte)', 'Prefixed(Int16ul, GreedyRange(Int16ub))', 'PrefixedArray(Byte, VarInt)', 'PrefixedArray(Byte, Int24ul)',
+            'PrefixedArray(Int16ub, CString("ascii"))']
 UNSIZABLE = ['VarInt', 'CString("utf8")', 'NullTerminated(GreedyBytes)', 'RepeatUntil(obj_ == 0, Byte)',
              'Struct("k"/Byte, "d"/Bytes(this.k))', 'ZigZag', 'Struct("c"/Byte, "a"/Array(this.c, Int16ub))', 'NullTerminated(GreedyBytes, term=b"\\x00\\x00")']
 TAIL = ['GreedyBytes', 'GreedyRange(Int16ub)', 'GreedyString("utf8")']
@@ -37,6 +38,9 @@ VALS = {
     'Prefixed(Byte, Struct("a"/Byte, "r"/GreedyBytes))': lambda g: dict(a=g.randrange(256), r=G.rand_bytes(g, g.randint(0, 4))),
     'PrefixedArray(VarInt, Byte)': lambda g: [g.randrange(256) for _ in range(g.choice([0, 1, 3, 130]))],
     'Prefixed(Int16ul, GreedyRange(Int16ub))': lambda g: [g.randrange(65536) for _ in range(g.randint(0, 3))],
+    'PrefixedArray(Byte, VarInt)': lambda g: [g.choice([0, 1, 127, 128, 300, 70000]) for _ in range(g.randint(0, 4))],
+    'PrefixedArray(Byte, Int24ul)': lambda g: [g.randrange(2 ** 24) for _ in range(g.randint(0, 3))],
+    'PrefixedArray(Int16ub, CString("ascii"))': lambda g: [g.choice(['', 'a', 'xyz']) for _ in range(g.randint(0, 3))],
     'VarInt': lambda g: g.choice([0, 1, 127, 128, 300, 2 ** 21, g.randrange(2 ** 30)]), 'CString("utf8")': lambda g: G.rand_text(g, 'utf8'),
     'NullTerminated(GreedyBytes)': lambda g: bytes(g.randrange(1, 256) for _ in range(g.randint(0, 4))),
     'RepeatUntil(obj_ == 0, Byte)': lambda g: [g.randrange(1, 256) for _ in range(g.randint(0, 3))] + [0],
@@ -163,6 +167,53 @@ def o_lazystruct(src, eager, data, start, kw, history, mode):
     if st.tell() != epos:
         return 'after iteration the stream is at %d, the parse left it at %d' % (st.tell(), epos)
     return None
+
+
+@C.oracle('lazy_anon')
+def o_lazy_anon(src, eager, data, order):
+    """anonymous members (constants, padding, unnamed measured fields) among the named ones: access by name, attribute, get, iteration
+    and == give the eager values, in any order; the parse ends where the eager parse ends"""
+    ce, cl = C.get(eager), C.get(src)
+    st = io.BytesIO(data)
+    try:
+        e = ce.parse_stream(st)
+        end = st.tell()
+    except core.ConstructError:
+        return None
+    st = io.BytesIO(data)
+    try:
+        l = cl.parse_stream(st)
+    except core.ConstructError as ex:
+        return 'lazy parse raised %s where the eager parse succeeds' % type(ex).__name__
+    if st.tell() != end:
+        return 'lazy parse leaves the stream at %d, the eager parse at %d' % (st.tell(), end)
+    keys = [k for k in e if not str(k).startswith('_')]
+    for k in [keys[i % len(keys)] for i in order] if keys else []:
+        for how, f in (('[name]', lambda: l[k]), ('attribute', lambda: getattr(l, k)), ('get', lambda: l.get(k))):
+            try:
+                v = f()
+            except Exception as ex:
+                return 'access %s of %r raised %s' % (how, k, type(ex).__name__)
+            if not C.peq(v, e[k]):
+                return 'access %s of %r gives %r, the eager value is %r' % (how, k, v, e[k])
+        if st.tell() != end:
+            return 'after accessing %r the stream stands at %d, the parse left it at %d' % (k, st.tell(), end)
+    if list(l.keys()) != keys:
+        return 'keys() gives %r, the named members are %r' % (list(l.keys()), keys)
+    if not all(C.peq(a, e[k]) for k, a in l.items()):
+        return 'items() gives %r, eager %r' % (list(l.items()), [(k, e[k]) for k in keys])
+    if not (l == e):
+        return 'lazy result does not compare equal to the eager result'
+    return None
+
+
+ANON = [
+    ('(Const(b"MZ"), "a"/Int8ub, Padding(1), "b"/Int16ub, "c"/Bytes(2))', b'MZ\x07\x00\x01\x02xy'),
+    ('("a"/Byte, PrefixedArray(Byte, VarInt), "c"/Int16ub)', b'\x05\x02\x81\x01\x06\x00\x09'),
+    ('(Prefixed(Byte, Bytes(1)), "a"/Byte, Byte, "b"/Byte)', b'\x03xyz\x01\x02\x03'),
+    ('("a"/VarInt, Const(b"\\x00"), PrefixedArray(VarInt, Int16ub), Padding(2), "z"/Byte)', b'\x81\x01\x00\x01\x00\x07\x00\x00\x09'),
+    ('(Padding(1), Padding(1), "only"/Byte)', b'\x00\x00\x07'),
+]
 
 
 @C.oracle('lazyarray')
@@ -373,6 +424,18 @@ def run(tier, seed):
                     cases.append(dict(src=lazy, op='lazy', kw=kw, data=d, start=start, history=h))
                 cases.append(dict(src=lazy, op='parse', kw=kw, data=d, start=start))
             acc.check('lazy_rebuild', lazy, eager=eager, data=data, kw=kw, history=[i for i in range(cnt) if i % 2])
+    # ---- anonymous members among the named ones ----
+    for body, d in ANON:
+        for order in ([0], [1, 0], [2, 1, 0, 2], [0, 0, 1]):
+            acc.check('lazy_anon', 'LazyStruct' + body, eager='Struct' + body, data=d, order=order)
+        for dd in (d, d + b'\x55', d[:-1]):
+            cases.append(dict(src='LazyStruct' + body, op='parse', kw={}, data=dd, start=0))
+    # unnamed measured elements directly under Lazy / LazyArray (no Renamed in between)
+    for el, enc in [('PrefixedArray(Byte, VarInt)', b'\x02\x81\x01\x06'), ('PrefixedArray(Byte, Int24ul)', b'\x01\x01\x02\x03'), ('Prefixed(Byte, Bytes(2))', b'\x03ab\xcc')]:
+        acc.check('lazy_single', 'Lazy(%s)' % el, eager=el, data=enc + b'\x09', start=0, kw={}, calls=2)
+        acc.check('lazy_surrounding', 'Struct("a"/Byte, "b"/Lazy(%s), "c"/Byte)' % el, eager='Struct("a"/Byte, "b"/%s, "c"/Byte)' % el, data=b'\x01' + enc + b'\x09', kw={})
+        for h in ([], [0], [2, 0], [1, 1, 0]):
+            acc.check('lazyarray', 'LazyArray(3, %s)' % el, eager='Array(3, %s)' % el, data=enc * 3 + b'\x09', start=0, kw={}, history=h, slices=[(None, None, None)])
     # ---- stretched length prefixes (mutated but accepted inputs) ----
     for P, enc in STRETCH:
         for k in (0, 1, 3):
